@@ -163,7 +163,11 @@ type Resolver struct {
 // ResolveNow triggers a new poll to be performed after the current one, if any, is finished.
 // This method doesn't block and just writes a signal which will be handled by the poller goroutine in the background.
 func (r *Resolver) ResolveNow() {
-	(*r.notifyResolveNow.Load())()
+	notify := r.notifyResolveNow.Load()
+
+	verifhook.Point("resolver.resolveNow.loaded", r.target)
+
+	(*notify)()
 }
 
 // Close closes the resolver, releasing any associated resources (i.e. the poller goroutine).
